@@ -1,4 +1,5 @@
 import MjProof.Model.XmlDefaults
+import MjProof.Model.XmlInertial
 import MjProof.Gen.McjfDefaults
 import Drivers.Common
 /-
@@ -14,6 +15,14 @@ Line protocol of the C32 model driver (table-level writer/reader of Model/XmlDef
        B: attributes of the element instance
      -> "ok D <attr=tok,tok;...> E <attr=tok,...;...>"   what WriteAttrTable puts on the default-class element (compared with
         the constructor default, writingdefaults) and on the instance (compared with the class);  "err <message>"
+  i <no|yes|auto> <discardvisual 0|1> <saveinertial 0|1> <glo> <ghi> (B <explicit 0|1> <spec mass x<bits>>
+        (G <id> <visual 0|1> <group> <mass x<bits>> <has a mass attribute 0|1>)* )* [# ...]
+     the inertia-source model of Model/XmlInertial.lean on IEEE doubles (`add` = the C `+`, `heavy x` = `x > 1e-14`):
+     -> "ok C - B <written 0|1>:<ids of the geoms kept, joined by +, or ->:<compiled mass x<bits>>:<reloaded mass x<bits>> B ..."
+        `C -`: none of inertiafromgeom / discardvisual / inertiagrouprange / saveinertial is written by mjXWriter::Compiler
+  c <same arguments as i>
+     -> "ok <k_1> <k_2> ..."  per body the value of `unsafeClass` (0 = covered by inertial_roundtrip, 1..4 = the recorded
+        classes on which the tree loses the mass); used by the oracle only, masses may be approximate (only `> 1e-14` matters)
   Everything from a "#" token on is ignored (the implementation side reads the document there).
 -/
 open MjProof MjProof.Driver MjProof.XmlDefaults
@@ -86,11 +95,66 @@ def showTok : Tok Float → String
 def showXml (l : List (String × Tok Float)) : String :=
   if l.isEmpty then "-" else ";".intercalate (l.map fun (a, t) => a ++ "=" ++ showTok t)
 
+/-! ### inertia-source model -/
+open MjProof.XmlInertial in
+def floatAlg : Alg Float := { add := (· + ·), zero := 0.0, heavy := fun x => x > 1e-14 }
+
+def parseFlag (s : String) : Option Bool :=
+  if s == "0" then some false else if s == "1" then some true else none
+
+def parseX (t : String) : Option Float :=
+  if t.startsWith "x" then parseBits (t.drop 1).toString else none
+
+open MjProof.XmlInertial in
+/-- geoms of one body: `G id visual group mass massAttr` repeated; returns the geoms and the remaining tokens -/
+def parseGeoms : (fuel : Nat) → List String → List (Geom Float) → Option (List (Geom Float) × List String)
+  | 0, _, _ => none
+  | fuel + 1, toks, acc =>
+    match toks with
+    | "G" :: id :: vis :: grp :: m :: ma :: rest =>
+      match id.toNat?, parseFlag vis, grp.toInt?, parseX m, parseFlag ma with
+      | some id, some vis, some grp, some m, some ma =>
+        parseGeoms fuel rest ({ id, visual := vis, group := grp, m, massAttr := ma } :: acc)
+      | _, _, _, _, _ => none
+    | _ => some (acc.reverse, toks)
+
+open MjProof.XmlInertial in
+def parseBodies : (fuel : Nat) → List String → List (Body Float) → Option (List (Body Float))
+  | 0, _, _ => none
+  | fuel + 1, toks, acc =>
+    match toks with
+    | [] => some acc.reverse
+    | "B" :: ex :: em :: rest =>
+      match parseFlag ex, parseX em with
+      | some ex, some em =>
+        match parseGeoms (rest.length + 1) rest [] with
+        | some (gs, rest2) => parseBodies fuel rest2 ({ explicit := ex, emass := em, geoms := gs } :: acc)
+        | none => none
+      | _, _ => none
+    | _ => none
+
+open MjProof.XmlInertial in
+def inertialStep (cls : Bool) (ifg dv si glo ghi : String) (rest : List String) : String :=
+  let ifg? : Option IFG := if ifg == "no" then some .no else if ifg == "yes" then some .yes
+    else if ifg == "auto" then some .auto else none
+  match ifg?, parseFlag dv, parseFlag si, glo.toInt?, ghi.toInt?, parseBodies (rest.length + 1) rest [] with
+  | some ifg, some dv, some si, some glo, some ghi, some bs =>
+    let c : Comp := { ifg, discard := dv, saveinertial := si, glo, ghi }
+    if cls then "ok" ++ String.join (bs.map fun b => " " ++ toString (unsafeClass floatAlg c bs b)) else
+    let parts := bs.map fun b =>
+      let s := saveBody floatAlg c bs b
+      let ids := if s.geoms.isEmpty then "-" else "+".intercalate (s.geoms.map fun g => toString g.id)
+      s!"B {if s.inertial.isSome then 1 else 0}:{ids}:{showFloat (mass floatAlg c b)}:{showFloat (rtMass floatAlg c bs b)}"
+    "ok C -" ++ String.join (parts.map (" " ++ ·))
+  | _, _, _, _, _, _ => "bad-op"
+
 def step (line : String) : String :=
   match (words line).takeWhile (· != "#") with
   | ["tables"] =>
     let ts := Gen.McjfDefaults.tables
     s!"tables {ts.length} " ++ " ".intercalate (ts.map (·.1))
+  | "i" :: ifg :: dv :: si :: glo :: ghi :: rest => inertialStep false ifg dv si glo ghi rest
+  | "c" :: ifg :: dv :: si :: glo :: ghi :: rest => inertialStep true ifg dv si glo ghi rest
   | "w" :: table :: "D" :: rest =>
     match Gen.McjfDefaults.tables.find? (·.1 == table) with
     | none => "bad-op"
